@@ -1,4 +1,6 @@
 import GqlgenVerif.Gen.GoBoundaries
+import GqlgenVerif.Gen.ServeRecover
+import GqlgenVerif.Model.Serve
 /-!
 # C04 (panic containment facts of the generated code)
 
@@ -28,5 +30,54 @@ theorem all_field_functions_recover : fieldFuncs.all (fun x => x.2 == "recover")
 theorem facts_nonempty :
     goStmts.length > 5 ∧ concurrentClosures.length > 5 ∧ innerFuncs.length > 5 ∧ fieldFuncs.length > 20 := by
   decide
+
+/-! ### a panic raised while serializing a value (it escapes every generated recover) -/
+open GqlgenVerif.Serve GqlgenVerif.Gen.ServeRecover in
+/-- today's `ServeHTTP`, as extracted -/
+def genServe : Serve.Cfg := ⟨serveFirst, servePresents, serveStatus, serveWritesBody⟩
+
+/-- **A panic raised while serializing a value fails only that response with a well-formed error body**:
+    over today's `ServeHTTP`, for every panic value and every recover hook, the client gets status 422 with
+    a GraphQL error body carrying what the hook returned, and the hook ran exactly once. -/
+theorem serialization_panic_contained (present : String → String) (v : String) :
+    Serve.serveOne genServe present (.panic v) =
+      (.errorBody "StatusUnprocessableEntity" (present v), { recovers := 1 }) := by
+  simp [Serve.serveOne, genServe, Gen.ServeRecover.serveFirst, Gen.ServeRecover.servePresents,
+    Gen.ServeRecover.serveStatus, Gen.ServeRecover.serveWritesBody]
+
+/-- **… and only that response**: in any sequence of requests served by the process, each answer is the
+    answer to that request alone (a panicking request changes nothing for its neighbours), and no request is
+    left without an answer. -/
+theorem only_that_response_fails (present : String → String) (before after : List Serve.Ran) (r : Serve.Ran) :
+    (Serve.serveAll genServe present (before ++ r :: after))[before.length]? =
+      some (Serve.serveOne genServe present r) ∧
+    ∀ x ∈ Serve.serveAll genServe present (before ++ r :: after), x.1 ≠ .connectionAborted := by
+  constructor
+  · induction before with
+    | nil => simp [Serve.serveAll]
+    | cons b bs ih => simpa [Serve.serveAll] using ih
+  · intro x hx
+    have : ∀ l : List Serve.Ran, ∀ x ∈ Serve.serveAll genServe present l, x.1 ≠ .connectionAborted := by
+      intro l
+      induction l with
+      | nil => intro x hx; simp [Serve.serveAll] at hx
+      | cons a as ih =>
+        intro x hx
+        simp only [Serve.serveAll, List.mem_cons] at hx
+        rcases hx with rfl | hx
+        · cases a <;> simp [Serve.serveOne, genServe, Gen.ServeRecover.serveFirst, Gen.ServeRecover.servePresents,
+            Gen.ServeRecover.serveStatus, Gen.ServeRecover.serveWritesBody]
+        · exact ih x hx
+    exact this _ x hx
+
+/-- the statement rests on the recover: without it as the first statement the same request gets no response -/
+theorem serve_without_recover_witness :
+    (Serve.serveOne { genServe with first := "other" } id (.panic "boom")).1 = .connectionAborted := by decide
+
+/-- every goroutine transport/websocket.go starts either runs no user code or installs its recover first
+    (the subscription goroutine: a panic while serializing an event ends that operation with an error frame) -/
+theorem websocket_goroutines_protected :
+    Gen.ServeRecover.wsGoStmts.all (fun x => x.2 == "recover-first" || x.2 == "no-user-code") = true ∧
+    Gen.ServeRecover.wsGoStmts.any (fun x => x.2 == "recover-first") = true := by decide
 
 end GqlgenVerif.C04Gen
